@@ -865,6 +865,9 @@ struct Line {
     terms: Terms,
     subjects: HashMap<String, bool>,
     ucmp: usize,
+    /// legal values of the Encrypt dictionary's Length entry for this configuration (-1 = absent), canonical one
+    lengths: Vec<i64>,
+    canon_length: i64,
 }
 
 struct Group {
@@ -884,7 +887,9 @@ fn load_terms(path: &str) -> (Vec<Line>, Vec<Group>) {
         let cfg = Cfg::from(l);
         index.insert(cfg.key(), lines.len());
         let subjects = l["subjects"].as_object().unwrap().iter().map(|(k, v)| (k.clone(), v.as_bool().unwrap())).collect();
-        lines.push(Line { cfg, terms: Terms::from_line(l), subjects, ucmp: l["ucmp"].as_u64().unwrap() as usize });
+        lines.push(Line { cfg, terms: Terms::from_line(l), subjects, ucmp: l["ucmp"].as_u64().unwrap() as usize,
+            lengths: l["lengths"].as_array().expect("lengths").iter().map(|x| x.as_i64().unwrap()).collect(),
+            canon_length: l["canonLength"].as_i64().expect("canonLength") });
     }
     for l in all.iter().filter(|l| l["kind"] == "CASE") {
         let cfg = Cfg::from(l);
@@ -1278,25 +1283,15 @@ fn record_one(out: &mut Out, line: &Line, g: &Group, rng: &mut Rng, huge: bool) 
 // ====================================================================== direction G: reference -> lopdf
 
 /// the Encrypt dictionary an ISO writer produces for the configuration
-fn ref_encrypt_dict(rng: &mut Rng, cfg: &Cfg, vals: &HashMap<&str, Vec<u8>>, p: i64, variant: &str) -> Dictionary {
+fn ref_encrypt_dict(rng: &mut Rng, cfg: &Cfg, vals: &HashMap<&str, Vec<u8>>, p: i64, dlen: i64) -> Dictionary {
     let mut d = Dictionary::new();
     let s = |b: &Vec<u8>, rng: &mut Rng| Object::String(b.clone(), if rng.chance(1, 2) { StringFormat::Hexadecimal } else { StringFormat::Literal });
     d.set("Filter", name("Standard"));
     d.set("V", Object::Integer(cfg.v));
     d.set("R", Object::Integer(cfg.r));
-    match cfg.v {
-        1 => {
-            if variant == "len40" {
-                d.set("Length", Object::Integer(40))
-            }
-        }
-        2 => d.set("Length", Object::Integer(cfg.bits)),
-        4 => d.set("Length", Object::Integer(128)),
-        _ => {
-            if variant == "len256" {
-                d.set("Length", Object::Integer(256))
-            }
-        }
+    // Length: one of the values the spec lists as legal for this V (LegalLengths), -1 = no entry
+    if dlen >= 0 {
+        d.set("Length", Object::Integer(dlen));
     }
     if cfg.v >= 4 {
         let mut cf = Dictionary::new();
@@ -1344,7 +1339,17 @@ fn lopdf_err(e: &lopdf::Error) -> String {
     s.chars().take(80).collect()
 }
 
-fn gen_one(out: &mut Out, line: &Line, g: &Group, rng: &mut Rng, huge: bool, variant: &str) {
+fn set_length(d: &mut Document, enc_id: ObjectId, len: i64) {
+    if let Some(Object::Dictionary(ed)) = d.objects.get_mut(&enc_id) {
+        if len >= 0 {
+            ed.set("Length", Object::Integer(len));
+        } else {
+            ed.remove(b"Length");
+        }
+    }
+}
+
+fn gen_one(out: &mut Out, line: &Line, g: &Group, rng: &mut Rng, huge: bool, dlen: i64) {
     let cfg = &line.cfg;
     let t = &line.terms;
     let plain = gen_doc(rng, false, huge);
@@ -1417,7 +1422,7 @@ fn gen_one(out: &mut Out, line: &Line, g: &Group, rng: &mut Rng, huge: bool, var
         }
         hexify(obj);
     }
-    let ed = ref_encrypt_dict(rng, cfg, &vals, p, variant);
+    let ed = ref_encrypt_dict(rng, cfg, &vals, p, dlen);
     let enc_id = enc.add_object(Object::Dictionary(ed));
     enc.trailer.set("Encrypt", Object::Reference(enc_id));
 
@@ -1484,8 +1489,8 @@ fn gen_one(out: &mut Out, line: &Line, g: &Group, rng: &mut Rng, huge: bool, var
                 // the loader decrypted the document with the empty password
                 let bad = judge_plain(&l);
                 let empty = json!([]);
-                out.put(json!({"ev": "open", "user": g.user, "owner": g.owner, "try": empty, "route": "auto", "variant": variant,
-                               "authU": "na", "authO": "na", "res": "auto", "err": "", "fk": "na", "bad": bad, "nitems": pm.len(), "permsPlainOpens": "na"}));
+                out.put(json!({"ev": "open", "user": g.user, "owner": g.owner, "try": empty, "route": "auto", "dlen": dlen,
+                               "authU": "na", "authO": "na", "res": "auto", "err": "", "fk": "na", "bad": bad, "nitems": pm.len(), "permsPlainOpens": "na", "canonOpens": "na"}));
                 None
             }
         }
@@ -1507,13 +1512,25 @@ fn gen_one(out: &mut Out, line: &Line, g: &Group, rng: &mut Rng, huge: bool, var
                     _ => "no",
                 };
             }
-            out.put(json!({"ev": "open", "user": g.user, "owner": g.owner, "try": json!([]), "route": "load", "variant": variant,
-                           "authU": "na", "authO": "na", "res": "err", "err": lopdf_err(&e), "fk": "na", "bad": Vec::<&str>::new(), "nitems": pm.len(), "permsPlainOpens": ppo}));
+            // diagnosis: does the same file load when Length has its canonical form for this V?
+            let mut co = "na";
+            if dlen != line.canon_length {
+                let mut e2 = enc.clone();
+                set_length(&mut e2, enc_id, line.canon_length);
+                let mut b2 = vec![];
+                co = match guarded(|| e2.save_to(&mut b2).ok().and_then(|_| Document::load_mem(&b2).ok())) {
+                    Ok(Some(l)) if judge_plain(&l).is_empty() => "yes",
+                    _ => "no",
+                };
+            }
+            out.put(json!({"ev": "open", "user": g.user, "owner": g.owner, "try": json!([]), "route": "load", "dlen": dlen,
+                           "authU": "na", "authO": "na", "res": "err", "err": lopdf_err(&e), "fk": "na", "bad": Vec::<&str>::new(), "nitems": pm.len(), "permsPlainOpens": ppo,
+                           "canonOpens": co}));
             None
         }
         Err(p) => {
-            out.put(json!({"ev": "open", "user": g.user, "owner": g.owner, "try": json!([]), "route": "load", "variant": variant,
-                           "authU": "na", "authO": "na", "res": "panic", "err": p, "fk": "na", "bad": Vec::<&str>::new(), "nitems": pm.len(), "permsPlainOpens": "na"}));
+            out.put(json!({"ev": "open", "user": g.user, "owner": g.owner, "try": json!([]), "route": "load", "dlen": dlen,
+                           "authU": "na", "authO": "na", "res": "panic", "err": p, "fk": "na", "bad": Vec::<&str>::new(), "nitems": pm.len(), "permsPlainOpens": "na", "canonOpens": "na"}));
             None
         }
     };
@@ -1567,8 +1584,20 @@ fn gen_one(out: &mut Out, line: &Line, g: &Group, rng: &mut Rng, huge: bool, var
                 _ => "no",
             };
         }
-        out.put(json!({"ev": "open", "user": g.user, "owner": g.owner, "try": c["try"], "route": route, "variant": variant,
+        // diagnosis for a Length entry in other than its canonical form: does the same attempt succeed with the canonical one?
+        let mut co = "na";
+        let expected = c["expUser"] == json!(true) || c["expOwner"] == json!(true);
+        if dlen != line.canon_length && expected && (res != "ok" || !bad.is_empty()) {
+            let mut d3 = base.clone();
+            set_length(&mut d3, enc_id, line.canon_length);
+            co = match guarded(|| d3.decrypt(&pw)) {
+                Ok(Ok(())) if judge_plain(&d3).is_empty() => "yes",
+                _ => "no",
+            };
+        }
+        out.put(json!({"ev": "open", "user": g.user, "owner": g.owner, "try": c["try"], "route": route, "dlen": dlen,
                        "authU": au, "authO": ao, "res": res, "err": err, "fk": fkq, "bad": bad, "nitems": pm.len(), "permsPlainOpens": ppo,
+                       "canonOpens": co,
                        "expUser": c["expUser"], "expOwner": c["expOwner"]}));
     }
 }
@@ -1631,14 +1660,9 @@ fn main() {
         if dir == "V" {
             record_one(&mut out, line, g, &mut rng, huge);
         } else {
-            let variant = if i % 5 == 4 && line.cfg.v == 5 {
-                "len256"
-            } else if i % 5 == 4 && line.cfg.v == 1 {
-                "len40"
-            } else {
-                ""
-            };
-            gen_one(&mut out, line, g, &mut rng, huge, variant);
+            // every legal form of the Length entry in turn (rounds of the check shift the choice through --seed)
+            let dlen = line.lengths[(i + seed as usize) % line.lengths.len()];
+            gen_one(&mut out, line, g, &mut rng, huge, dlen);
         }
     }
     out.out.finish();
